@@ -163,4 +163,9 @@ def build(mods):
                 return mbr
         return InstrSet.THUMB_EE
     C[Rg.current_instr_set] = Contract(Rg.current_instr_set, current_instr_set_spec, engine=True)
+    # configuration accessor that builds a dict literal on every call (an allocation inside merged arms)
+    CF = mods.configurations
+    C[CF.memory_system_architecture] = Contract(
+        CF.memory_system_architecture,
+        lambda eng: {'PMSA': mods.enums.MemArch.PMSA, 'VMSA': mods.enums.MemArch.VMSA}[eng.cfg['memory_system_architecture']], engine=True)
     return C
